@@ -441,6 +441,40 @@ func c10ClientNegotiate(r *Run, cn *ssa.Function) {
 		r.Check(fieldOfTypedValue(r.P.FA(setFn[sc]), sc.Call.Args[0], "MessageRversion", "MSize", 0), "msize-only-lowered", "clientnegotiate: adopted msize is the Rversion's MSize", sc.Pos(),
 			"the client adopts "+s.K+" rather than the server's answer")
 	}
+	// the client ends up with min(proposed, answered): every way to a success return either installs the answer
+	// (SetMSize above) or lies on edges implying that the channel's msize does not exceed the answer
+	for _, sc := range sets {
+		if setFn[sc] != cn {
+			continue
+		}
+		x := fa.Lin(sc.Call.Args[0])
+		var getter *Sym
+		facts := fa.FactsAt(sc, x)
+		for _, f := range facts {
+			for _, a := range f.L.Atoms {
+				if isMSizeGetter(a) && Entails(facts, x.Add(linConst(1)).Sub(linAtom(a))) {
+					getter = a
+				}
+			}
+		}
+		if getter == nil {
+			continue // reported by msize-only-lowered
+		}
+		exempt := map[*ssa.BasicBlock]bool{sc.Block(): true}
+		for _, b := range cn.Blocks {
+			if sc.Block().Dominates(b) {
+				exempt[b] = true
+			}
+		}
+		goal := linAtom(getter).Sub(x)
+		for _, ret := range returnsOf(cn) {
+			if len(ret.Results) != 2 || !isNilConst(ret.Results[1]) {
+				continue
+			}
+			r.Check(fa.EntailsOnEdgesExcept(ret, goal, 6, exempt), "client-min", "clientnegotiate: success without SetMSize only when the channel's msize does not exceed the answer", ret.Pos(),
+				"some way to a successful negotiation neither installs the server's answer nor implies that the client's msize is already at most that answer: the client keeps (and uses) a larger msize than the one agreed")
+		}
+	}
 	// success only after both I/O steps succeeded and on the MessageRversion clause
 	writes := findCalls(cn, "invoke p9p.Channel.WriteFcall")
 	reads := findCalls(cn, "invoke p9p.Channel.ReadFcall")
@@ -520,6 +554,29 @@ func c10BufferInvariant(r *Run, sm, nc *ssa.Function) {
 	})
 	r.Floor("buffer-invariant", n, 1, "channel literal in newChannel")
 	_ = types.Typ
+	// the buffered reader and writer live as long as the channel: replacing one discards the bytes it holds (frames
+	// that arrived in the same read as the version request; a frame not yet flushed)
+	nB := 0
+	for _, fn := range r.P.FuncsOfPkg("p9p") {
+		eachInstr(fn, func(in ssa.Instruction) {
+			st, ok := in.(*ssa.Store)
+			if !ok {
+				return
+			}
+			f, ok := st.Addr.(*ssa.FieldAddr)
+			if !ok || !isP9P(f.X.Type(), "channel") {
+				return
+			}
+			switch name := fieldName(f.X.Type(), f.Field); name {
+			case "brd", "bwr", "conn":
+				nB++
+				_, inLit := f.X.(*ssa.Alloc)
+				r.Check(fn == nc && inLit, "buffer-invariant", fnName(fn)+": channel."+name+" is set once, by the constructor", st.Pos(),
+					"the channel's "+name+" is replaced after construction: bytes already buffered (frames that arrived together with the version request, an unflushed frame) are lost and the stream loses frame alignment")
+			}
+		})
+	}
+	r.Floor("buffer-invariant", nB, 3, "initialisations of channel.conn/brd/bwr in the constructor")
 }
 
 // dischargeBoundsWithPre is dischargeBounds with extra precondition facts.
